@@ -551,6 +551,8 @@ def execute(plan, ctx):
                     return
             if seam.decisions:
                 ctx.nontrivial = True
+                ctx.probe("directory-listings-with-a-choice-of-order", seam.decisions)
+                ctx.probe("schedule-stub-first" if sched.get("stub_first") else "schedule-source-first")
             ctx.log("load", (si, repr(sched), seam.decisions, core.hash_key(tree)))
             mism = match(expected, tree)
             if mism:
